@@ -70,7 +70,7 @@ def run(tier, seed, t0):
             raise vlib.Inconclusive("model-level deviation at %s is not in KNOWN_FINDINGS.jsonl: %s" % (d[1], json.dumps(d)[:300]))
     out = os.path.join(vlib.BUILD, "work", PID)
     os.makedirs(out, exist_ok=True)
-    nrender = 5 if tier == "quick" else 24
+    nrender = 6 if tier == "quick" else 24
     summ = json.loads(vlib.run_harness(["c07", rows, out, seed, nrender]))
     events = [json.loads(l) for l in open(os.path.join(out, "c07.events.ndjson"))]
     for e in events:
@@ -91,7 +91,7 @@ def run(tier, seed, t0):
                 "JSON kinds, any member/element deleted, duplicated before/after, moved to the front): %d documents with the "
                 "three-valued L1 verdict, the decoded tree and the L2 prediction; T7a compares ParserImpl with GeoDoc on all of "
                 "them. Each document is rendered %d times (3 number tables incl. 17-digit, 1e21, 5e-324; exponent/decimal spellings; "
-                "whitespace; escaped keys; surrounding whitespace; trailing garbage; truncation) and parsed under 4 option sets; "
+                "whitespace; escaped keys; surrounding whitespace; trailing garbage; truncation; leading/trailing characters that are Unicode but not JSON whitespace) and parsed under 4 option sets; "
                 "accept/reject, error xor object, type/nesting/child order and every x,y (bit-for-bit) are compared. "
                 "distinct_nontrivial = distinct documents" % (meta["lines"] - len(devs), nrender),
         "exhaustive": True,
